@@ -8,10 +8,10 @@ from framework.checklib import CorrResult
 from framework import coqrun
 from harness import arithcorr as ac
 from harness import mulcorr as mc
-from translator import t1_operators, t4_arith
+from translator import t1_operators, t4_arith, t19_mul_gen
 
 ID = 'C08'
-TRANSLATORS = [t1_operators.translate, t4_arith.translate]
+TRANSLATORS = [t1_operators.translate, t4_arith.translate, t19_mul_gen.translate]
 PROPERTY_FILE = 'Properties/C08.v'
 THEOREMS = [
     'C08_every_generator_only_extends', 'C08_extension_meaning', 'C08_result_length_formulas',
@@ -24,6 +24,7 @@ THEOREMS = [
     'C08_mul_wallace_total_exact', 'C08_mul_pow2_m1_total_exact', 'C08_mul_karatsuba_total_exact',
     'C08_mul_karatsuba_pow2_total_exact', 'C08_last_step_total_exact',
     'C08_square_total_exact', 'C08_square_pow2_m1_total_exact',
+    'C08_generators_regenerated',
 ]
 # every statement is proved at full strength: the product / square for all widths, the exact number of result bits
 # (Wallace included) and normal termination (`..._total_exact`).  Not covered by a termination theorem: the
@@ -57,7 +58,17 @@ LEVEL_TEXT = ('every multiplication mode (add_mul, add_mul_alter, add_mul_dadda,
               '/repo by regenerating the cells (translator T4) and by netlist-equality correspondence on every run '
               '(vm_compute for widths <= 8-12 on bare and host circuits; the same Gallina code extracted to OCaml for '
               'the 10^3-10^4-gate netlists at the Karatsuba / squarer thresholds)')
-LEVEL_NOTE = ('Coq kernel + vm_compute; translators T1, T4; correspondence harness (order-preserving label renaming '
+LEVEL_NOTE = ('Coq kernel + vm_compute; translators T1, T4, T19 (T19, translator/t19_mul_gen.py on top of T14, regenerates the '
+              'generator ALGORITHMS of multiplication.py / square.py statement by statement from the current source on '
+              'every run - add_mul, add_mul_alter, add_mul_pow2_m1, add_mul_dadda, last_step_sum_with_new_powers_sum, both '
+              'Karatsuba multipliers, add_square_pow2_m1, add_square, the dispatch tables _process_mul / _process_square '
+              'and the wrappers generate_mul / generate_square - and C08_generators_regenerated proves each of them '
+              'extensionally equal to the hand model the theorems are about (same result, same final state, same error, '
+              'for all arguments; last_step_sum_with_new_powers_sum: not with one empty operand and the other of two or more '
+              'bits, where the hand model says IndexError and Python ValueError; generate_mul: size_of_input_a >= 0); '
+              'add_mul_wallace (nested closures over a mutable cell) stays tied by the correspondence check only; the '
+              'summation / subtraction generators the multipliers call are the hand models of C07 / C09, of which T19 '
+              'reads the signatures); correspondence harness (order-preserving label renaming '
               'new_%032x -> new_%04x); for the wide shapes the model is EXTRACTED to OCaml (Extraction Language OCaml '
               'with ExtrOcamlBasic + ExtrOcamlString only, ocamlfind ocamlopt 4.13; a 60-line driver built inside the '
               'check prints the model result - returned labels, every gate with type and operands, every users list, '
@@ -76,7 +87,10 @@ LEVEL_NOTE = ('Coq kernel + vm_compute; translators T1, T4; correspondence harne
               'add_sum_pow2_m1-based functions ask that the empty string is not a gate label (filter(None, .) would '
               'drop it) and the Wallace clauses (value AND exact length) ask that the placeholder string '
               '"_PLACEHOLDER_STR_" is not a gate label')
-TECHNIQUE = ('Coq proof: generators as programs of the deep-embedded builder monad over the Circuit model; partial '
+TECHNIQUE = ('Coq proof: generators as programs of the deep-embedded builder monad over the Circuit model; the generator '
+             'algorithms regenerated from the source by a fail-closed ast translator and proved equal to the hand model '
+             '(index loops with in-place stores against structural recursion: generic fold lemmas instantiated by '
+             'higher-order unification, anti-diagonals by index, fuelled while loops and recursion); partial '
              'products as a matrix with value sum_i 2^i row_i = a * b; default mode through the C07 weighted-sum '
              'theorem plus a gap-freeness invariant and a potential argument (number of levels) on its sorted work lists; column compressors as weighted-bag '
              'rewriting (sum_i 2^i ones(column_i) invariant modulo 2^(n+m), a * b < 2^(n+m) closes the gap); '
